@@ -89,7 +89,7 @@ class TlcResult:
         self.generated = int(m.group(1)) if m else 0
         self.distinct = int(m.group(2)) if m else 0
         self.violated = bool(re.search(r"Error: Invariant .* is violated|Error: Action property .* is violated|"
-                                       r"Error: Temporal properties were violated|Assumption .* is false|"
+                                       r"Error: Temporal properties were violated|Error: Temporal property .* was violated|Assumption .* is false|"
                                        r"Error: Deadlock reached", out))
         self.post_failed = "Postcondition" in out and ("violated" in out or "false" in out.lower().split("postcondition", 1)[1][:200])
         self.error = ("Error:" in out) or rc not in (0,)
